@@ -707,6 +707,49 @@ func c12r2(p *Program, r *Report) {
 					}
 					return true
 				})
+				// or: a zeroed [9]byte array that holds the value at [1:] is handed out whole in this branch
+				ast.Inspect(ifs.Body, func(y ast.Node) bool {
+					as, isAs := y.(*ast.AssignStmt)
+					if !isAs || len(as.Lhs) != 1 || len(as.Rhs) != 1 {
+						return true
+					}
+					sl, isSl := ast.Unparen(as.Rhs[0]).(*ast.SliceExpr)
+					if !isSl || sl.High != nil {
+						return true
+					}
+					if sl.Low != nil {
+						if k, isK := constInt(info, sl.Low); !isK || k != 0 {
+							return true
+						}
+					}
+					wid, isId := ast.Unparen(sl.X).(*ast.Ident)
+					if !isId {
+						return true
+					}
+					at, isArr := info.TypeOf(wid).Underlying().(*types.Array)
+					if !isArr || at.Len() != 9 || !declaredZero(info, fi, wid) {
+						return true
+					}
+					stored0 := false
+					ast.Inspect(fi.Decl.Body, func(z ast.Node) bool {
+						if a2, ok := z.(*ast.AssignStmt); ok {
+							for _, l := range a2.Lhs {
+								if ix, isIx := ast.Unparen(l).(*ast.IndexExpr); isIx && exprStr(ix.X) == wid.Name {
+									stored0 = true
+								}
+							}
+						}
+						return true
+					})
+					for _, pc := range callsIn(fi.Decl.Body) {
+						if calleeName(info, pc) == "binary.(bigEndian).PutUint64" && len(pc.Args) == 2 && pc.Pos() < ifs.Pos() && !stored0 {
+							if b, lo, hi, okR := p.regionConst(fi, pc.Args[0]); okR && b == wid.Name && lo == 1 && hi < 0 {
+								ok9 = true
+							}
+						}
+					}
+					return true
+				})
 				for _, pc := range callsIn(ifs.Body) {
 					if calleeName(info, pc) == "binary.(bigEndian).PutUint64" && len(pc.Args) == 2 && nine != "" {
 						if b, lo, hi, okR := p.regionConst(fi, pc.Args[0]); okR && b == nine && lo == 1 && hi < 0 {
@@ -1349,8 +1392,9 @@ func c12r5(p *Program, r *Report) {
 			r.Check(nulls >= 1 && framedPairs(rest, 1, "int") || len(rest) == 1 && strings.HasPrefix(rs, "lenbytes("), loop, fmt.Sprintf("marshalTuple loop %d element framing", n), strings.Join(seq, " "), "a tuple element is framed as `"+strings.Join(seq, " ")+"`, not [int length][bytes] with -1 for null")
 			return true
 		})
-		if n != 3 {
-			r.Unresolved("marshalTuple: expected 3 element loops, found %d", n)
+		if n < 1 {
+			// (the []interface{}, struct and slice/array sources may share one loop over the element types)
+			r.Unresolved("marshalTuple: expected at least one element loop, found %d", n)
 		}
 	}
 	if fi := r.NeedFunc("marshalUDT"); fi != nil {
